@@ -720,6 +720,9 @@ func checkSegments(rc *RunCtx, rec *BuildRec, mf *Metafile, metaOut map[string]M
 			continue
 		}
 		c := outBytes[p]
+		if strings.Contains(c, " with { ") {
+			continue // one file bundled as several modules (import attributes): their entries were folded
+		}
 		type hit struct {
 			key        string
 			start, end int // start of the comment line, end = index after its newline
